@@ -12,7 +12,7 @@ use std::panic::{catch_unwind, AssertUnwindSafe};
 pub fn run_stream(ctx: &mut Ctx, name: &str) {
 	match name {
 		"compact" => compact_stream(ctx),
-		"enc" | "rt" | "mut" | "rand" | "exh" | "cut" | "decall" | "skip" | "count" | "limit" | "mem" =>
+		"enc" | "rt" | "mut" | "rand" | "exh" | "cut" | "decall" | "skip" | "count" | "limit" | "mem" | "stacks" =>
 			catalogue::run_all(ctx, name),
 		"wrapops" => wrapops_stream(ctx),
 		"len" => len_stream(ctx),
@@ -681,6 +681,26 @@ pub fn run_type<T: Cat + DecodeAll + DecodeLimit>(ctx: &mut Ctx, stream: &str, n
 				if unl.starts_with("ok") && need.is_none() {
 					ctx.oracle_fail("C11", format!("{}: unlimited decode succeeds but no limit up to 12 does: {}", name, hex_or_dash(&bs)));
 				}
+			}
+		},
+		"stacks" => {
+			for i in 0..n_vals {
+				g.budget = o.budget;
+				let v = T::gen(&mut g);
+				g.budget = o.budget;
+				let w = T::gen(&mut g);
+				let mut bs = v.encode();
+				match i % 4 {
+					0 => {},
+					1 => bs.push(g.rng.below(256) as u8),
+					2 => bs = mutate(&mut g.rng, &bs, &w.encode(), !o.zero_width_elems),
+					_ => {
+						let cut = g.rng.below(bs.len() as u64 + 1) as usize;
+						bs.truncate(cut)
+					},
+				}
+				let seed = g.rng.next();
+				crate::stacks::run_stacks::<T>(ctx, name, &bs, seed);
 			}
 		},
 		"exh" => {
